@@ -171,24 +171,32 @@ func c03Units(tier string, seed int64) []Unit {
 	// pointer in the cycle (the usual "node with a slice of children"). An unbounded recursion while
 	// constructing ends in Go's unrecoverable stack overflow, which takes the worker down; the parent
 	// classifies that as "process-crash kind=stack-overflow unit=<this unit>".
-	units = append(units, Unit{Name: "C03/Make[node{Kids []node}]/construct", Run: func(c *Ctx) {
-		self, _ := os.Executable()
-		out, err := exec.Command(self, "constructprobe", "recNode").CombinedOutput()
-		c.R.Evals++
-		c.R.States++
-		c.R.Transitions++
-		switch {
-		case err == nil && strings.Contains(string(out), "constructed"):
-			c.Outcome("constructed", true)
-		case crashKind(string(out)) != "":
-			c.Outcome("crash "+crashKind(string(out)), true)
-			c.Violate(Violation{Sig: "C03 constructor-never-returns prog=Make[node{Kids []node}] crash=" + crashKind(string(out)),
-				Detail: "rapid.Make[recNode]() (type recNode struct{ Val int8; Kids []recNode }) took the process down:\n" + trunc(string(out), 1500),
-				Replay: map[string]any{"engine": "construct", "program": "Make[recNode]"}})
-		default:
-			c.R.HarnessErr = fmt.Sprintf("constructprobe: %v: %s", err, trunc(string(out), 500))
-		}
-	}})
+	// recursive types: a constructor must return for every Go type it accepts. Each probe runs in a
+	// subprocess, because an unbounded recursion while constructing ends in Go's unrecoverable stack overflow.
+	for _, pr := range []struct{ key, typ string }{
+		{"recNode", "node{Kids []node}"}, {"recList", "List []*List"}, {"recDict", "Dict map[string]*Dict"}, {"recChain", "Chain [1]*Chain"},
+		{"recTree", "tree{L,R *tree}"}, {"recMutual", "A{B *B}, B{As []A}"}, {"recPtr", "P *P"},
+	} {
+		pr := pr
+		units = append(units, Unit{Name: "C03/Make[" + pr.typ + "]/construct", Run: func(c *Ctx) {
+			self, _ := os.Executable()
+			out, err := exec.Command(self, "constructprobe", pr.key).CombinedOutput()
+			c.R.Evals++
+			c.R.States++
+			c.R.Transitions++
+			switch {
+			case err == nil && strings.Contains(string(out), "constructed"):
+				c.Outcome(strings.TrimSpace(string(out)), true)
+			case crashKind(string(out)) != "":
+				c.Outcome("crash "+crashKind(string(out)), true)
+				c.Violate(Violation{Sig: "C03 constructor-never-returns prog=Make[" + pr.typ + "] crash=" + crashKind(string(out)),
+					Detail: "rapid.Make for the recursive type " + pr.typ + " took the process down:\n" + trunc(string(out), 1500),
+					Replay: map[string]any{"engine": "construct", "program": "Make[" + pr.typ + "]"}})
+			default:
+				c.R.HarnessErr = fmt.Sprintf("constructprobe %s: %v: %s", pr.key, err, trunc(string(out), 500))
+			}
+		}})
+	}
 	return units
 }
 
@@ -266,12 +274,49 @@ type recNode struct {
 	Kids []recNode
 }
 
-// ConstructProbeMain (subprocess) constructs one generator whose construction may never return.
+// ConstructProbeMain (subprocess) constructs one generator whose construction may never return, and
+// draws from it on a short all-zero buffer (every pointer nil, every collection empty).
 func ConstructProbeMain(which string) {
 	debug.SetMaxStack(64 << 20) // fail after 64 MiB of stack instead of 1 GiB
+	tb := NewTB("probe")
+	run := func(name string, prop func(t *rapid.T)) {
+		res := rapid.VerifRunBuf(tb, make([]uint64, 8), false, prop)
+		fmt.Println("constructed", name, "drew:", kindName(res.Kind))
+	}
 	switch which {
 	case "recNode":
 		g := rapid.Make[recNode]()
-		fmt.Println("constructed", g.String())
+		run(g.String(), func(t *rapid.T) { g.Draw(t, "v") })
+	case "recList":
+		g := rapid.Make[recList]()
+		run(g.String(), func(t *rapid.T) { g.Draw(t, "v") })
+	case "recDict":
+		g := rapid.Make[recDict]()
+		run(g.String(), func(t *rapid.T) { g.Draw(t, "v") })
+	case "recChain":
+		g := rapid.Make[recChain]()
+		run(g.String(), func(t *rapid.T) { g.Draw(t, "v") })
+	case "recTree":
+		g := rapid.Make[recTree]()
+		run(g.String(), func(t *rapid.T) { g.Draw(t, "v") })
+	case "recMutual":
+		g := rapid.Make[recA]()
+		run(g.String(), func(t *rapid.T) { g.Draw(t, "v") })
+	case "recPtr":
+		g := rapid.Make[recPtr]()
+		run(g.String(), func(t *rapid.T) { g.Draw(t, "v") })
 	}
 }
+
+type (
+	recList  []*recList
+	recDict  map[string]*recDict
+	recChain [1]*recChain
+	recTree  struct {
+		V    int8
+		L, R *recTree
+	}
+	recA   struct{ B *recB }
+	recB   struct{ As []recA }
+	recPtr *recPtr
+)
